@@ -941,16 +941,24 @@ fn infer_plutus_version(witness_set: &primitives::WitnessSet) -> PlutusVersion {
 fn compute_script_data_hash(
     witness_set: &primitives::WitnessSet,
     pparams: &PParams,
-) -> Option<primitives::Hash<32>> {
+) -> Result<Option<primitives::Hash<32>>, Error> {
+    // without redeemers or datums there is no script data to hash, and no cost
+    // model is needed
+    if witness_set.redeemer.is_none() && witness_set.plutus_data.is_none() {
+        return Ok(None);
+    }
+
     let version = infer_plutus_version(witness_set);
 
-    let cost_model = pparams.cost_models.get(&version).unwrap();
+    let cost_model = pparams.cost_models.get(&version).ok_or_else(|| {
+        Error::MissingExpression(format!("cost model for plutus version {version}"))
+    })?;
 
     let language_view = primitives::LanguageView(version, cost_model.clone());
 
     let data = primitives::ScriptData::build_for(witness_set, &Some(language_view));
 
-    data.map(|x| x.hash())
+    Ok(data.map(|x| x.hash()))
 }
 
 pub fn entry_point(tx: &tir::Tx, pparams: &PParams) -> Result<primitives::Tx<'static>, Error> {
@@ -958,7 +966,8 @@ pub fn entry_point(tx: &tir::Tx, pparams: &PParams) -> Result<primitives::Tx<'st
     let transaction_witness_set = compile_witness_set(tx, &transaction_body, pparams.network)?;
     let auxiliary_data = compile_auxiliary_data(tx)?;
 
-    transaction_body.script_data_hash = compute_script_data_hash(&transaction_witness_set, pparams);
+    transaction_body.script_data_hash =
+        compute_script_data_hash(&transaction_witness_set, pparams)?;
     transaction_body.auxiliary_data_hash = auxiliary_data.as_ref().map(|x| x.compute_hash());
 
     Ok(primitives::Tx {
